@@ -173,7 +173,7 @@ def main():
                 if rc:
                     m["status"] = "novet"
                     continue
-                rc, out = sh(["go", "test"] + margs + ["-vet=off", "-count=1", own], cwd=moddir, timeout=200)
+                rc, out = sh(["go", "test"] + margs + ["-vet=off", "-count=1", own], cwd=moddir, timeout=240)
                 if rc == 0 and not goctl:
                     others = [p for p in pkgs if p != own]
                     if others:
